@@ -8,6 +8,7 @@ type; blobs whose .meta is rewritten to a legacy codec reference are read back.
 import json
 import os
 
+import dds
 from vp import core
 from vp import storemodel as SM
 
@@ -21,6 +22,13 @@ def produce_a(tag):
 
 def produce_b(tag):
     return ("second-version", SM.result_value(tag))
+
+
+def two_paths():
+    # one function, same argument, kept under two paths: both paths get the same blob key
+    a = dds.keep("/alias/first", produce_a, "str_ascii")
+    b = dds.keep("/alias/second", produce_a, "str_ascii")
+    return (a, b)
 
 
 def _spellings(c, tier):
@@ -110,6 +118,28 @@ def commit_job(arg):
                         rep.violate("commit_type=%r: load(%r) = %r, kept %r" % (spelling, p2, lv, exp2), {"commit_type": spelling, "seq": seq}, mechanism="load-wrong-value")
                 except BaseException as e:
                     rep.violate("commit_type=%r: load(%r) raised %s: %s" % (spelling, p2, type(e).__name__, str(e)[:100]), {"commit_type": spelling, "seq": seq}, mechanism="load-raised")
+        # one key under two paths, the first path already recorded by an earlier evaluation
+        if ctype != "none":
+            try:
+                dds.keep("/alias/first", produce_a, "str_ascii")
+                r2 = dds.eval(two_paths)
+                rep.count("alias_evaluations")
+                exp = produce_a("str_ascii")
+                if r2 != (exp, exp):
+                    rep.violate("commit_type=%r: evaluation keeping one function under two paths returned %r" % (spelling, r2), {"commit_type": spelling, "seq": seq, "alias": True}, mechanism="keep-wrong-value")
+                for ap in ("/alias/first", "/alias/second"):
+                    rec = os.path.join(root, "dbfs", "data", "_dds_meta", ap.lstrip("/"))
+                    if not os.path.isfile(rec):
+                        rep.violate("commit_type=%r: no redirect record for %r (same blob key as another path of the evaluation)" % (spelling, ap), {"commit_type": spelling, "seq": seq, "alias": True}, mechanism="record-missing")
+                        continue
+                    if ctype == "full" and not os.path.exists(os.path.join(root, "dbfs", "data", ap.lstrip("/"))):
+                        rep.violate("commit_type=%r: no copy of %r under the data directory" % (spelling, ap), {"commit_type": spelling, "seq": seq, "alias": True}, mechanism="full-copy-missing")
+                    lv = dds.load(ap)
+                    rep.count("loads")
+                    if lv != exp:
+                        rep.violate("commit_type=%r: load(%r) = %r" % (spelling, ap, lv), {"commit_type": spelling, "seq": seq, "alias": True}, mechanism="load-wrong-value")
+            except BaseException as e:
+                rep.violate("commit_type=%r: one function under two paths: %s: %s" % (spelling, type(e).__name__, str(e)[:150]), {"commit_type": spelling, "seq": seq, "alias": True}, mechanism="keep-raised")
         if len(kept) >= 2:
             rep.nontriv(("commit", spelling, repr(seq)))
     return rep
